@@ -27,7 +27,8 @@ import time as _time
 from .. import clock, concretize as cz, env
 from ..concretize import p64, norm
 
-B0 = 1273831200          # 2010-05-14 10:00:00 UTC: time of "run 0"
+B0 = 1273795200          # 2010-05-14 00:00:00 UTC: clock second 0 (midnight: every truncated date form can name it)
+EXT = ('deltafs', 'deltafsz', 'fs', 'fsz')     # rank of a data file's kind = position in name order
 DATA_RE = re.compile(r'^(\d{4}(?:-\d\d){5})\.(deltafsz|deltafs|fsz|fs)$')
 OPT_NAMES = ('full', 'quick', 'gzip', 'killold')
 
@@ -137,6 +138,7 @@ class RepozoReplayer:
         self.S = None
         self.snaps = {}           # run -> bytes of the committed part when the run started
         self.scan_cache = {}
+        self.known_files = set()
         self.index_cache = {}
         self.opens_cache = {}
         self.counts = {'backup': 0, 'recover': 0, 'verify': 0, 'damage': 0, 'index': 0, 'restore': 0}
@@ -224,6 +226,17 @@ class RepozoReplayer:
 
     def source_step(self, action, args, state):
         src = self._n(state, 'src')
+        try:
+            self._source_call(action, args, state, src)
+        except Mismatch:
+            raise
+        except Exception as e:       # the storage under test refused / failed: an outcome the model does not have
+            raise Mismatch('conformance', {'clause': 'source', 'what': 'exception', 'action': action, 'impl': type(e).__name__},
+                           '%s raised %s: %s' % (action, type(e).__name__, e))
+        self.msrc = tuple(src)
+        self._check_source(state)
+
+    def _source_call(self, action, args, state, src):
         if action == 'Commit':
             if self.t is None:
                 self._vote()
@@ -246,7 +259,8 @@ class RepozoReplayer:
             self.secs = self.secs[k - 1:]
             self.committed = os.path.getsize(self.path)
             if self.committed != self.off(len(src)):
-                raise RuntimeError('pack(%d) left %d bytes, expected %d' % (k, self.committed, self.off(len(src))))
+                raise Mismatch('conformance', {'clause': 'source', 'what': 'pack-size'},
+                               'Pack(%d) left %d bytes, the model has %d' % (k, self.committed, self.off(len(src))))
             after = self._read(0, self.committed)
             for i, c in enumerate(src):
                 real = after[self.off(i):self.off(i + 1)]
@@ -263,11 +277,10 @@ class RepozoReplayer:
                     self.chunks[c] = real
                     if dec == 'freed' and real == same_place:
                         # the model's "every chunk gets a fresh identity" after a pack that freed something
-                        raise RuntimeError('pack left chunk %d unchanged: the model does not cover this history' % i)
+                        raise Mismatch('conformance', {'clause': 'source', 'what': 'pack-kept-bytes'},
+                                       'Pack(%d) left transaction %d byte-identical in place: the model gives it a new identity' % (k, i + 1))
         else:
             raise RuntimeError('unknown source action %s' % action)
-        self.msrc = tuple(src)
-        self._check_source(state)
 
     # ---- time ----------------------------------------------------------------
     def run_time(self, t):
@@ -324,18 +337,25 @@ class RepozoReplayer:
             return 'error', e
 
     # ---- the repository as the model sees it ------------------------------------
+    def stamp_t(self, stamp):
+        t, r = divmod(_calendar(stamp) - B0, self.step_s)
+        return t if r == 0 else ('odd', stamp)
+
+    def name_of(self, t, r):
+        return '%s.%s' % (stamp(self.run_time(t)), EXT[r] if r < 4 else 'index')
+
     def listing(self):
-        """-> {t: (name, full, gz)} of the data files in the repository directory"""
-        out = {}
+        """-> ({(t, rank): name} of the data files, {t: name} of the .index files, {t: name} of the .dat files)"""
+        data, idx, dats = {}, {}, {}
         for name in os.listdir(self.repo):
             m = DATA_RE.match(name)
-            if not m:
-                continue
-            secs = _calendar(m.group(1))
-            t, r = divmod(secs - B0, self.step_s)
-            key = t if r == 0 else ('odd', name)
-            out[key] = (name, m.group(2) in ('fs', 'fsz'), m.group(2).endswith('z'))
-        return out
+            if m:
+                data[(self.stamp_t(m.group(1)), EXT.index(m.group(2)))] = name
+            elif name.endswith('.index'):
+                idx[self.stamp_t(name[:-6])] = name
+            elif name.endswith('.dat'):
+                dats[self.stamp_t(name[:-4])] = name
+        return data, idx, dats
 
     def _content(self, name):
         p = os.path.join(self.repo, name)
@@ -372,62 +392,70 @@ class RepozoReplayer:
             text += ' [' + '; '.join(self.relearned[-2:]) + ']'
         self.found.append({'kind': 'property', 'sig': sig, 'text': text})
 
-    def check_repo(self, state, t_new=None):
-        """Directory vs. `files` (conformance); the new backup file vs. the driver's snapshot (property)."""
+    @staticmethod
+    def _rank(f):
+        return (2 if f['full'] else 0) + (1 if f['gz'] else 0)
+
+    def check_repo(self, state, new=None, run=None):
+        """Directory vs. files / idx / dats (conformance); the new backup file vs. the driver's snapshot (property).
+        new = (t, rank) of the data file this run is expected to have written."""
         files = self._n(state, 'files')
-        real = self.listing()
-        want = {f['t']: (bool(f['full']), bool(f['gz'])) for f in files}
-        got = {k: (v[1], v[2]) for k, v in real.items()}
+        data, idx, dats = self.listing()
         # property first: a backup file holds complete transactions only, from the committed part at backup time
-        if t_new is not None and t_new in real:
-            name = real[t_new][0]
-            data = self._content(name)
-            snap = self.snaps[t_new]
-            if not real[t_new][1]:
-                if not snap.endswith(data):
+        fresh = [k for k in data if k not in self.known_files]
+        for k in fresh:
+            name = data[k]
+            content = self._content(name)
+            snap = self.snaps.get(run, b'')
+            if k[1] < 2:
+                if not snap.endswith(content):
                     self._prop({'clause': 'backup', 'what': 'incremental-not-committed-bytes'},
                                '%s holds %r which is not the end of the committed part %r' % (
-                                   name, self.describe(data), self.describe(snap)))
-            elif data != snap:
+                                   name, self.describe(content), self.describe(snap)))
+            elif content != snap:
                 self._prop({'clause': 'backup', 'what': 'full-not-committed-part'},
                            '%s holds %d bytes %r, the committed part was %d bytes %r' % (
-                               name, len(data), self.describe(data), len(snap), self.describe(snap)))
-        if want != got:
+                               name, len(content), self.describe(content), len(snap), self.describe(snap)))
+        self.known_files = set(data)
+        want = sorted((f['t'], self._rank(f)) for f in files)
+        if want != sorted(data, key=repr):
             raise Mismatch('conformance', {'clause': 'backup', 'what': 'listing'},
-                           'repository holds %s, specification %s' % (_fmt_listing(got), _fmt_listing(want)))
-        names = {f['t']: real[f['t']][0] for f in files}
+                           'repository holds %s, specification %s' % (_fmt_listing(sorted(data, key=repr)), _fmt_listing(want)))
+        midx = {e['t']: e['ix'] for e in self._n(state, 'idx')}
+        mdat = {e['t']: e['lines'] for e in self._n(state, 'dats')}
+        if sorted(midx) != sorted(idx, key=repr):
+            raise Mismatch('conformance', {'clause': 'backup', 'what': 'index-files'},
+                           'repository holds .index of %r, specification %r' % (sorted(idx, key=repr), sorted(midx)))
+        if sorted(mdat) != sorted(dats, key=repr):
+            raise Mismatch('conformance', {'clause': 'backup', 'what': 'dat-files'},
+                           'repository holds .dat of %r, specification %r' % (sorted(dats, key=repr), sorted(mdat)))
         for f in files:
-            name = names[f['t']]
-            base = name.split('.')[0]
-            if t_new is not None and f['t'] != t_new and not f['full']:
-                continue          # old incrementals never change
-            if t_new is None or f['t'] == t_new:
-                data = self._content(name)
-                if data != self.cat(f['content']):
+            k = (f['t'], self._rank(f))
+            if new is None or k == new:
+                content = self._content(data[k])
+                if content != self.cat(f['content']):
                     raise Mismatch('conformance', {'clause': 'backup', 'what': 'content'},
-                                   '%s holds %r, specification %r' % (name, self.describe(data), tuple(f['content'])))
-                ip = os.path.join(self.repo, base + '.index')
-                if not os.path.exists(ip):
-                    raise Mismatch('conformance', {'clause': 'backup', 'what': 'index'}, 'no %s.index' % base)
-                bad = self._index_diff(ip, f['ix'])
+                                   '%s holds %r, specification %r' % (data[k], self.describe(content), tuple(f['content'])))
+        for t, ix in midx.items():
+            if new is None or t == new[0]:
+                bad = self._index_diff(os.path.join(self.repo, idx[t]), ix)
                 if bad:
                     raise Mismatch('conformance', {'clause': 'backup', 'what': 'index'}, bad)
-            if f['full']:
-                dp = os.path.join(self.repo, base + '.dat')
-                lines = []
-                if os.path.exists(dp):
-                    with open(dp) as fp:
-                        for line in fp:
-                            fn, a, b, s = line.split()
-                            lines.append((os.path.basename(fn), int(a), int(b), s))
-                wl = [(names.get(l['f'], '<file %s>' % l['f']), self.off(l['s']), self.off(l['e']),
-                       hashlib.md5(self.cat(l['sum'])).hexdigest()) for l in f['dat']]
-                if lines != wl:
-                    raise Mismatch('conformance', {'clause': 'backup', 'what': 'dat'},
-                                   '%s.dat is %r, specification %r' % (base, [x[:3] for x in lines], [x[:3] for x in wl]))
+        for t, mlines in mdat.items():
+            lines = []
+            with open(os.path.join(self.repo, dats[t])) as fp:
+                for line in fp:
+                    fn, a, b, sm = line.split()
+                    lines.append((os.path.basename(fn), int(a), int(b), sm))
+            wl = [(self.name_of(l['t'], self._rank(l)), self.off(l['s']), self.off(l['e']),
+                   hashlib.md5(self.cat(l['sum'])).hexdigest()) for l in mlines]
+            if lines != wl:
+                raise Mismatch('conformance', {'clause': 'backup', 'what': 'dat'},
+                               '%s is %r, specification %r' % (dats[t], [x[:3] for x in lines], [x[:3] for x in wl]))
 
     def _scan(self, data):
-        """(pos, {oid: pos}) of a data file by a full scan (no index file next to it)."""
+        """(pos, {oid: pos}) of a data file by a full scan (no index file next to it); pos is the scanner's own end
+        of the last complete transaction (FileStorage._pos), not what getSize() reports."""
         key = hashlib.md5(data).digest()
         r = self.scan_cache.get(key)
         if r is None:
@@ -438,10 +466,10 @@ class RepozoReplayer:
             try:
                 fs = FileStorage(p, read_only=True)
                 try:
-                    if fs.getSize() != len(data):
-                        r = ('short', fs.getSize())
+                    if fs._pos != len(data):
+                        r = ('short', fs._pos)
                     else:
-                        r = (fs.getSize(), dict(fs._index.items()))
+                        r = (fs._pos, dict(fs._index.items()))
                 finally:
                     fs.close()
             except Exception as e:
@@ -491,29 +519,60 @@ class RepozoReplayer:
     def backup_step(self, args, state):
         o = opt_bits(args[0])
         t = state['now']
+        res = self._n(state, 'res')
+        run = len(self._n(state, 'runs'))          # the number of this run if it was not refused
         self.counts['backup'] += 1
-        self.snaps[t] = self._read(0, self.committed)
+        if len(args) > 1 and args[1] == 0:
+            self.counts['same_second'] = self.counts.get('same_second', 0) + 1
+        snap = self._read(0, self.committed)
+        if res['dec'] != 'refused':
+            self.snaps[run] = snap
+        else:
+            self.snaps[-1] = snap
         before = set(os.listdir(self.repo))
         out, exc = self._call('backup', now=self.run_time(t), **o)
-        res = self._n(state, 'res')
+        new = sorted(n for n in set(os.listdir(self.repo)) - before if DATA_RE.match(n))
         if out != 'ok':
-            raise Mismatch('conformance', {'clause': 'backup', 'what': 'outcome', 'impl': type(exc).__name__},
-                           'backup %r raised %s: %s' % (o, type(exc).__name__, exc))
-        new = [n for n in set(os.listdir(self.repo)) - before if DATA_RE.match(n)]
-        dec = 'nochange' if not new else ('full' if any(DATA_RE.match(n).group(2) in ('fs', 'fsz') for n in new) else 'incr')
+            refused = 'Cannot overwrite existing file' in str(exc if not isinstance(exc, SystemExit) else exc.code)
+            dec = 'refused' if refused else 'raised'
+        else:
+            dec = 'nochange' if not new else ('full' if any(n.endswith(('.fs', '.fsz')) for n in new) else 'incr')
         if dec != res['dec']:
-            raise Mismatch('conformance', {'clause': 'backup', 'what': 'decision', 'spec': res['dec'] + '/' + res['why'],
-                                           'impl': dec},
-                           'backup %r decided %s, specification %s (%s)' % (o, dec, res['dec'], res['why']))
-        self.check_repo(state, t_new=t)
+            if dec in ('full', 'incr'):
+                self.snaps.setdefault(run, snap)
+                try:
+                    self.check_repo(state, run=run if res['dec'] != 'refused' else -1)   # what was written is still judged
+                except Mismatch:
+                    pass
+            raise Mismatch('conformance', {'clause': 'backup', 'what': 'decision',
+                                           'spec': res['dec'] + ('/' + res['why'] if res['why'] else ''),
+                                           'impl': dec if dec != 'raised' else type(exc).__name__},
+                           'backup %r at second %d %s%s, specification %s (%s)' % (
+                               o, t, 'decided ' + dec if dec != 'raised' else 'raised', '' if dec != 'raised' else ' %s: %s' % (type(exc).__name__, exc),
+                               res['dec'], res['why']))
+        expect = None
+        if dec in ('full', 'incr'):
+            expect = (t, (2 if dec == 'full' else 0) + (1 if o['gzip'] else 0))
+        self.check_repo(state, new=expect or (t, -1), run=run)
         if 'tmp.tmp' in os.listdir(self.repo):
             raise Mismatch('conformance', {'clause': 'backup', 'what': 'leftover'}, 'tmp.tmp left in the repository')
         # recovery as of now right after every backup: a failure is then reported with the run at fault
         rec = self._n(state, 'obs')['recover']
-        self.recover_obs(t, rec[t - 1], state)
+        if dec != 'refused' and len(rec) >= t:
+            self.recover_obs(t, rec[t - 1], state)
 
-    def _recover(self, d, state, withverify=False):
-        """do_recover as of run d -> (outcome, bytes or None, index path or None, exception)"""
+    def short_form(self, secs):
+        """The truncated date that names exactly this instant, or None (1 s clock)."""
+        if self.step_s % 86400 == 0:
+            return _time.strftime('%Y-%m-%d', _time.gmtime(secs))
+        if self.step_s % 3600 == 0:
+            return _time.strftime('%Y-%m-%d-%H', _time.gmtime(secs))
+        if self.step_s % 60 == 0:
+            return _time.strftime('%Y-%m-%d-%H-%M', _time.gmtime(secs))
+        return None
+
+    def _recover(self, d, state, form='full', withverify=False):
+        """do_recover as of clock second d -> (outcome, bytes or None, index path or None, exception)"""
         now_t = state['now']
         self.counts['recover'] += 1
         out_path = os.path.join(self.outdir, 'Data.fs')
@@ -522,15 +581,19 @@ class RepozoReplayer:
                 os.remove(p)
         slack = 0 if self.step_s == 1 else self.rng.randrange(self.step_s)
         now = self.run_time(now_t) + self.rng.choice((0, 1, 100000))
-        date_mode = self.rng.choice(('exact', 'slack', 'none')) if d == now_t else self.rng.choice(('exact', 'slack'))
-        if date_mode == 'none':
-            date = None
-            if self.step_s > 1:
-                now = self.run_time(now_t) + slack
-        elif date_mode == 'exact':
-            date = stamp(self.run_time(d))
+        if form == 'short':
+            date = self.short_form(self.run_time(d))
+            self.counts['short_date'] = self.counts.get('short_date', 0) + 1
         else:
-            date = stamp(self.run_time(d) + slack)
+            mode = self.rng.choice(('exact', 'slack', 'none')) if d == now_t else self.rng.choice(('exact', 'slack'))
+            if mode == 'none':
+                date = None
+                if self.step_s > 1:
+                    now = self.run_time(now_t) + slack
+            elif mode == 'exact':
+                date = stamp(self.run_time(d))
+            else:
+                date = stamp(self.run_time(d) + slack)
         out, exc = self._call('recover', now=now, date=date, output=out_path, withverify=withverify)
         if out != 'ok':
             return out, None, None, exc
@@ -540,20 +603,44 @@ class RepozoReplayer:
         return out, data, (ip if os.path.exists(ip) else None), None
 
     def recover_obs(self, d, x, state):
-        r, want = x['r'], x['want']
+        """Recovery as of clock second d in the variants the model tabulates: r (full date form), rw (with -w),
+        rs (truncated date form).  An intact repository gets one seeded variant per visit (all of them when the
+        replay asks for it), a damaged one the plain and the verifying recovery."""
+        dmg = self._n(state, 'dmg')
+        intact = dmg['kind'] == 'none'
+        short_ok = self.short_form(0) is not None
+        if self.opts.get('all_variants'):
+            variants = ['r', 'rw'] + (['rs'] if short_ok else [])
+        elif intact:
+            u = self.rng.random()
+            variants = ['rw'] if u < 0.25 else (['rs'] if u < 0.5 and short_ok else ['r'])
+        else:
+            variants = ['r', 'rw']
+        for v in variants:
+            self._recover_variant(d, x, v, state)
+
+    def _recover_variant(self, d, x, v, state):
+        r, want = x[v], x['want']
         dmg = self._n(state, 'dmg')
         ctx = self._n(state, 'obs')['ctx']
         res = self._n(state, 'res')
         intact = dmg['kind'] == 'none'
-        wv = intact and self.rng.random() < 0.3
-        out, data, ip, exc = self._recover(d, state, withverify=wv)
+        wv = v == 'rw'
+        form = 'short' if v == 'rs' else 'full'
+        out, data, ip, exc = self._recover(d, state, form=form, withverify=wv)
+        if dmg['t'] != 0 and wv:
+            self.counts['recover_w_damaged'] = self.counts.get('recover_w_damaged', 0) + 1
         if intact:
             basis = (res['dec'] + '/' + res['why']) if res['act'] == 'backup' and d == state['now'] else 'earlier-run'
-            base = {'clause': 'recover', 'damage': 'none', 'last_run': basis}
+            base = {'clause': 'recover', 'damage': 'none', 'last_run': basis, 'shared_stamp': bool(ctx['shared'])}
         else:
             base = {'clause': 'recover', 'damage': dmg['kind'], 'target': ctx['target'], 'place': ctx['place'],
                     'older_chain': bool(ctx['older'])}
-        where = 'recover as of run %d%s' % (d, ' (with -w)' if wv else '')
+        if wv:
+            base['withverify'] = True
+        if form == 'short':
+            base['date'] = 'short'
+        where = 'recover as of second %d%s%s' % (d, ' (with -w)' if wv else '', ' (date given as %s)' % self.short_form(self.run_time(d)) if form == 'short' else '')
         # -- property --
         k = want['k']
         bad = None
@@ -567,26 +654,28 @@ class RepozoReplayer:
             else:
                 snap = self.snaps[want['run']]
                 if snap != self.cat(want['v']):
-                    raise RuntimeError('driver snapshot of run %d is not %r' % (want['run'], want['v']))
+                    raise Mismatch('conformance', {'clause': 'source', 'what': 'snapshot'},
+                                   'the committed part at run %d was not %r' % (want['run'], want['v']))
                 if data != snap:
                     bad = ('wrong-bytes', '%s gave %d bytes %r; the committed part of the data file at run %d was %d bytes %r' % (
                         where, len(data), self.describe(data), want['run'], len(snap), self.describe(snap)))
-                elif ip is None:
-                    bad = ('no-index', '%s restored no index' % where)
-                else:
-                    t = self._index_unusable(ip, data)
-                    if t:
-                        bad = ('wrong-index', '%s: %s' % (where, t))
+                elif want['ix'] != 'any':
+                    if ip is None:
+                        bad = ('no-index', '%s restored no index' % where)
                     else:
-                        t = self._opens(data)
+                        t = self._index_unusable(ip, data)
                         if t:
-                            bad = ('unusable-index', '%s: %s' % (where, t))
+                            bad = ('wrong-index', '%s: %s' % (where, t))
+                        else:
+                            t = self._opens(data)
+                            if t:
+                                bad = ('unusable-index', '%s: %s' % (where, t))
             if bad:
                 self._prop(dict(base, got=bad[0]), bad[1])
-                if intact:
+                if intact and form == 'full':
                     self.tainted = True
         # -- conformance --
-        sig = {'clause': 'recover', 'what': 'outcome', 'damage': dmg['kind'], 'spec': r['out'], 'impl': out}
+        sig = {'clause': 'recover', 'what': 'outcome', 'damage': dmg['kind'], 'variant': v, 'spec': r['out'], 'impl': out}
         # with a file missing, "no files" and any other refusal are the same answer
         coarse = (lambda o: 'refused' if o != 'ok' else o) if not intact else (lambda o: o)
         if coarse(out) != coarse(r['out']):
@@ -596,11 +685,14 @@ class RepozoReplayer:
             if data != self.cat(r['content']):
                 raise Mismatch('conformance', dict(sig, what='content', spec='', impl=''),
                                '%s gave %r, specification %r' % (where, self.describe(data), tuple(r['content'])))
-            if ip is None:
-                raise Mismatch('conformance', dict(sig, what='index', spec='', impl='none'), '%s restored no index' % where)
-            t = self._index_diff(ip, r['ix'])
-            if t:
-                raise Mismatch('conformance', dict(sig, what='index', spec='', impl=''), '%s: %s' % (where, t))
+            mix = r['ix']
+            if bool(mix['has']) != (ip is not None):
+                raise Mismatch('conformance', dict(sig, what='index', spec='index' if mix['has'] else 'none', impl='index' if ip else 'none'),
+                               '%s restored %s, specification %s' % (where, 'an index' if ip else 'no index', 'an index' if mix['has'] else 'none'))
+            if mix['has'] and not mix['bad']:
+                t = self._index_diff(ip, mix['v'])
+                if t:
+                    raise Mismatch('conformance', dict(sig, what='index', spec='', impl=''), '%s: %s' % (where, t))
         return out
 
     def _opens(self, data):
@@ -615,7 +707,7 @@ class RepozoReplayer:
                 fs = FileStorage(out_path, read_only=True)
                 try:
                     d, tid = fs.load(p64(0), '')
-                    ok = d == self.data and fs.getSize() == len(data)
+                    ok = d == self.data and fs._pos == len(data)
                 finally:
                     fs.close()
                 r = '' if ok else 'recovered file + index open but do not serve the committed state'
@@ -632,10 +724,12 @@ class RepozoReplayer:
         got = 'ok' if out == 'ok' else 'fail'
         base = {'clause': 'verify', 'damage': dmg['kind'], 'target': ctx['target'], 'place': ctx['place'],
                 'older_chain': bool(ctx['older'])}
+        if dmg['kind'] == 'none':
+            base['shared_stamp'] = bool(ctx['shared'])
         mode = 'quick' if q else 'full'
         if x['must'] != 'any' and got != x['must']:
             if got == 'ok':
-                text = '%s verification passed although the backup file of run %s is %s' % (mode, dmg['t'], dmg['kind'])
+                text = '%s verification passed although %s is %s' % (mode, self.name_of(dmg['t'], dmg['r']), dmg['kind'])
             else:
                 text = '%s verification of an intact repository failed: %s: %s' % (mode, type(exc).__name__, exc)
             self._prop(dict(base, got='passed' if got == 'ok' else 'failed'), text)
@@ -665,19 +759,21 @@ class RepozoReplayer:
 
     # ---- damage -----------------------------------------------------------------
     def damage(self, args, state):
-        """Apply Damage(t, kind); -> undo function."""
-        t, kind = args[0], str(args[1])
+        """Apply Damage(t, r, kind) - r < 4: the data file of that kind, r = 4: the .index; -> undo function."""
+        t, r, kind = args[0], args[1], str(args[2])
         self.counts['damage'] += 1
-        name = self.listing()[t][0]
+        name = self.name_of(t, r)
         p = os.path.join(self.repo, name)
+        if not os.path.exists(p):
+            raise Mismatch('conformance', {'clause': 'damage', 'what': 'no-such-file'}, 'no %s to damage' % name)
         with open(p, 'rb') as f:
             orig = f.read()
-        if kind == 'missing':
-            hidden = os.path.join(self.side, name)
-            os.rename(p, hidden)
+        hidden = os.path.join(self.side, name)
+        os.rename(p, hidden)
 
-            def undo():
-                os.rename(hidden, p)
+        def undo():
+            os.replace(hidden, p)
+        if kind == 'missing':
             return undo
         n = len(orig)
         if kind == 'trunc':
@@ -689,13 +785,8 @@ class RepozoReplayer:
             new = orig[:pos] + bytes([orig[pos] ^ self.rng.choice((0x01, 0x80, 0xff))]) + orig[pos + 1:]
         else:
             raise RuntimeError('unknown damage %s' % kind)
-        hidden = os.path.join(self.side, name)
-        os.rename(p, hidden)
         with open(p, 'wb') as f:
             f.write(new)
-
-        def undo():
-            os.replace(hidden, p)
         return undo
 
     def probe(self, args, state):
@@ -721,7 +812,7 @@ class RepozoReplayer:
                 shutil.copyfile(os.path.join(srcdir, n), os.path.join(dd, n))
         return {'dir': d, 'clk': self.clk, 'serial': self.serial, 'secs': list(self.secs), 'chunks': dict(self.chunks),
                 'snaps': dict(self.snaps), 'committed': self.committed, 'tail': self.t is not None, 'tainted': self.tainted,
-                'msrc': self.msrc, 'relearned': list(self.relearned)}
+                'msrc': self.msrc, 'relearned': list(self.relearned), 'known_files': set(self.known_files)}
 
     def restore(self, snap):
         from ZODB.FileStorage import FileStorage
@@ -738,14 +829,16 @@ class RepozoReplayer:
         dd = os.path.join(snap['dir'], 'src')
         for n in os.listdir(dd):
             shutil.copyfile(os.path.join(dd, n), os.path.join(self.srcdir, n))
-        # backup files are written once; a .dat only grows: name + size tell whether a file is the checkpoint's
+        # put the repository back: a file whose bytes are still the checkpoint's stays (an .index or .dat can be
+        # rewritten in place with the same size by a second run within one clock second, so sizes do not tell)
         dd = os.path.join(snap['dir'], 'repo')
-        keep = {n: os.path.getsize(os.path.join(dd, n)) for n in os.listdir(dd)}
+        keep = set(os.listdir(dd))
         for n in os.listdir(self.repo):
-            if keep.get(n) != os.path.getsize(os.path.join(self.repo, n)):
-                os.remove(os.path.join(self.repo, n))
+            lp = os.path.join(self.repo, n)
+            if n in keep and os.path.getsize(lp) == os.path.getsize(os.path.join(dd, n)) and _same_bytes(lp, os.path.join(dd, n)):
+                keep.discard(n)
             else:
-                del keep[n]
+                os.remove(lp)
         for n in keep:
             shutil.copyfile(os.path.join(dd, n), os.path.join(self.repo, n))
         self.clk = snap['clk']
@@ -757,13 +850,19 @@ class RepozoReplayer:
         self.tainted = snap['tainted']
         self.msrc = snap['msrc']
         self.relearned = list(snap['relearned'])
+        self.known_files = set(snap['known_files'])
         self.st = FileStorage(self.path, pack_keep_old=False)     # drops the unfinished transaction, if any
         if snap['tail']:
             self.clk -= 1
             self._vote()                                           # ... which is voted again (same tid, same size)
         size = os.path.getsize(self.path)
-        if self.st.getSize() != self.committed or size != self.committed + (self.S if snap['tail'] else 0):
-            raise RuntimeError('checkpoint restore: %d/%d bytes, expected %d' % (self.st.getSize(), size, self.committed))
+        if self.st._pos != self.committed or size != self.committed + (self.S if snap['tail'] else 0):
+            raise RuntimeError('checkpoint restore: %d/%d bytes, expected %d' % (self.st._pos, size, self.committed))
+
+
+def _same_bytes(a, b):
+    with open(a, 'rb') as fa, open(b, 'rb') as fb:
+        return fa.read() == fb.read()
 
 
 def _gz_header_len(b):
@@ -786,8 +885,8 @@ def _calendar(s):
     return calendar.timegm(_time.strptime(s, '%Y-%m-%d-%H-%M-%S'))
 
 
-def _fmt_listing(d):
-    return '{' + ', '.join('%s:%s%s' % (k, 'full' if v[0] else 'incr', 'z' if v[1] else '') for k, v in sorted(d.items(), key=repr)) + '}'
+def _fmt_listing(keys):
+    return '{' + ', '.join('%s.%s' % (t, EXT[r]) for t, r in keys) + '}'
 
 
 def _short(x):
@@ -861,6 +960,9 @@ class Session:
                 self.res['features'][k] = self.res['features'].get(k, 0) + 1
                 for f in self._pack_features(r, state):
                     self.res['features'][f] = self.res['features'].get(f, 0) + 1
+                if len(args) > 1 and args[1] == 0:
+                    f = 'same-second>' + r['dec']
+                    self.res['features'][f] = self.res['features'].get(f, 0) + 1
                 self.rp.backup_step(args, state)
             else:
                 raise RuntimeError('replayer does not know action %s' % action)
@@ -896,7 +998,7 @@ class Session:
         """The queries of the current state (recovery as of every run, both verifications)."""
         self.res['observed'] += 1
         try:
-            self.rp.observe(state, skip_now=self.trail[-1]['action'] == 'Backup')
+            self.rp.observe(state, skip_now=self.trail[-1]['action'] == 'Backup' and self.rp._n(state, 'res')['dec'] != 'refused')
         except Mismatch as m:
             self._drain()
             self._record(m.kind, m.sig, m.text)
@@ -908,7 +1010,9 @@ class Session:
         """Damage(args) applied to the current state, observed, undone."""
         self.res['probed'] += 1
         self._count('Damage')
-        self._count('Damage:' + str(args[1]))
+        self._count('Damage:' + str(args[2]))
+        tg = self.rp._n(state, 'obs')['ctx']['target']
+        self.res['features']['damage-' + tg] = self.res['features'].get('damage-' + tg, 0) + 1
         pr = {'args': args, 'state': state}
         try:
             self.rp.probe(args, state)
@@ -931,7 +1035,7 @@ def replay_path(job):
             for stp in steps[1:]:
                 a, args, state = stp['action'], stp['args'], stp['state']
                 sig.append(label(a, args))
-                if a == 'Damage':
+                if a in ('Damage', 'DamageNewest'):
                     se.probe(args, state)
                     break
                 if not (se.step(a, args, state) and se.observe(state)) and not se.rp.lenient:
